@@ -77,6 +77,10 @@ Proof.
   induction ks' as [|k r IH]; [reflexivity|]. cbn [map filter mkdiff e_time]. rewrite N.eqb_refl. f_equal. exact IH.
 Qed.
 
+Lemma filter_same t o0 o1 ks :
+  filter (fun e => e_time e =? t) (map (mkdiff t o0 o1) ks) = map (mkdiff t o0 o1) ks.
+Proof. induction ks as [|k r IH]; [reflexivity|]. cbn [map filter mkdiff e_time]. rewrite N.eqb_refl. f_equal. exact IH. Qed.
+
 (* ---------------------------------------------------------------- the guard never fires while there is room *)
 Definition ksize (ks : list kind) : N := fold_right (fun k n => EVTBUF_HDR + dsz k + n) 0 ks.
 Definition abytes (a : option N) : N := match a with Some n => 4 + n | None => 0 end.
@@ -192,7 +196,7 @@ Section xplain_run.
   (* the extension of a freshly pushed recorded frame *)
   Definition fxnew (a t : N) (o : oval) : fx :=
     {| x_read := negb (rd a =? 0); x_evs := reads C a t o;
-       x_asz := match sh with PG => o_asz o | CYG => None end |}.
+       x_asz := match sh with PG => o_asz o | CYG => None end; x_nent := length (reads C a t o) |}.
 
   Lemma kinds_zero : kinds_of 0 = [].
   Proof. reflexivity. Qed.
@@ -291,7 +295,7 @@ Section xplain_run.
   Lemma x_leave_in s X w a t0 o0 r d t1 o1 anc axs dd :
     stack s = nf sh w a t0 r d :: anc -> xs X = fxnew a t0 o0 :: axs -> pend X = [] ->
     fc s = fcd dd -> enabled s = true -> t0 <= t1 -> t1 < 18446744073709551616 -> 0 < t1 ->
-    (ekinds C a = [] \/ t0 < t1) -> asz_ok (o_asz o0) ->
+    asz_ok (o_asz o0) ->
     x_leave C s X t1 o1 =
     if (thr <=? t1 - t0) || w then
       emit (set_xs X axs)
@@ -301,7 +305,7 @@ Section xplain_run.
             ++ map IE (diffs C a t1 o0 o1) ++ [IR {| r_time := t1; r_type := EXIT; r_depth := r; r_addr := a |}]) []
     else set_xs X axs.
   Proof.
-    intros Hst Hxs Hp Hfc Hen Ht Hlt Hpos Hk Hasz. unfold x_leave. change (xb C) with c. rewrite Hst, Hxs. cbn [hd tl].
+    intros Hst Hxs Hp Hfc Hen Ht Hlt Hpos Hasz. unfold x_leave. change (xb C) with c. rewrite Hst, Hxs. cbn [hd tl].
     assert (Hg : f_ghost (nf sh w a t0 r d) = false) by (destruct w; reflexivity). rewrite Hg.
     assert (Hnr : norecord (f_flags (nf sh w a t0 r d)) = false) by (destruct w; reflexivity).
     assert (Htop : match shp c with
@@ -339,11 +343,12 @@ Section xplain_run.
           rewrite reads_eq, used_reads, ekinds_eq. change (read_of C a) with (rd a).
           pose proof (ksize_filter (avail (pmu_ok C)) (filter (fun k => negb (N.land (rd a) (kind_bit k) =? 0)) table)) as K2.
           lia. }
-    assert (Htake : take_eq t0 (x_evs x1) = reads C a t0 o0 /\
-                    filter (fun e => e_time e =? t1) (x_evs x1) = diffs C a t1 o0 o1).
-    { rewrite Hev, reads_eq, diffs_eq. destruct Hk as [Hk|Hk].
-      - rewrite Hk. split; reflexivity.
-      - split; [apply take_eq_reads; lia|apply filter_diffs; lia]. }
+    assert (Hn : x_nent x1 = length (reads C a t0 o0)).
+    { subst x1. destruct (x_read (fxnew a t0 o0)); reflexivity. }
+    assert (Htake : take_eq t0 (firstn (x_nent x1) (x_evs x1)) = reads C a t0 o0 /\
+                    filter (fun e => e_time e =? t1) (skipn (x_nent x1) (x_evs x1)) = diffs C a t1 o0 o1).
+    { rewrite Hev, Hn, firstn_app, skipn_app, Nat.sub_diag, firstn_all, skipn_all. cbn [firstn skipn app].
+      rewrite app_nil_r, reads_eq, diffs_eq. split; [apply take_eq_all|apply filter_same]. }
     destruct Htake as [Htk Hfl].
     assert (Hpx : pend (set_xs X axs) = []) by exact Hp. rewrite Hpx.
     unfold x_rtd.
@@ -368,14 +373,14 @@ Section xplain_run.
   Fixpoint xtimed (k : xcall) : Prop :=
     match k with
     | XCall a t0 o0 t1 _ kids =>
-        t0 <= t1 /\ t1 < 18446744073709551616 /\ 0 < t1 /\ (ekinds C a = [] \/ t0 < t1) /\ asz_ok (o_asz o0) /\
+        t0 <= t1 /\ t1 < 18446744073709551616 /\ 0 < t1 /\ asz_ok (o_asz o0) /\
         (fix all (l : list xcall) : Prop := match l with [] => True | k :: r => xtimed k /\ all r end) kids
     end.
   Fixpoint all_xtimed (l : list xcall) : Prop :=
     match l with [] => True | k :: r => xtimed k /\ all_xtimed r end.
 
   Lemma xtimed_kids a t0 o0 t1 o1 kids : xtimed (XCall a t0 o0 t1 o1 kids) -> all_xtimed kids.
-  Proof. cbn. intros (_ & _ & _ & _ & _ & H). induction kids; cbn in *; tauto. Qed.
+  Proof. cbn. intros (_ & _ & _ & _ & H). induction kids; cbn in *; tauto. Qed.
 
   Lemma erase_xrecs : forall k d, erase (xrecs C thr gd d k) = recs thr gd d (strip k).
   Proof.
@@ -481,7 +486,7 @@ Section xplain_run.
   Proof.
     induction k as [a t0 o0 t1 o1 kids IH] using xcall_ind'. intros HT s hk X d Hfc Hen Hr Hh Hp.
     pose proof (xrun_kids kids IH (xtimed_kids _ _ _ _ _ _ HT)) as RK. clear IH.
-    destruct HT as (Ht01 & Ht1 & Hpos & Hk & Hasz & _).
+    destruct HT as (Ht01 & Ht1 & Hpos & Hasz & _).
     cbn [strip height] in Hh. fold (heights (map strip kids)) in Hh.
     cbn [xflat]. unfold xexec. cbn [fold_left]. rewrite fold_left_app. cbn [fold_left].
     cbn [xdstep bev dstep].
@@ -571,7 +576,7 @@ Section xplain_run.
         assert (Hsk : skip (newframe sh a t0 (ridx s) d) = false) by reflexivity. rewrite Hsk.
         pose proof (xflush_anc_nopend (stack s) (xs X)) as Hnp.
         destruct (xflush_anc (stack s) (xs X) []) as [its p1]. cbn [snd] in Hnp. subst p1.
-        unfold x_entry. rewrite pop_lt_nil. cbn [fst fxnew x_evs map app].
+        unfold x_entry. rewrite pop_lt_nil. cbn [fst fxnew x_evs x_nent map app]. rewrite firstn_all.
         change (f_start (newframe sh a t0 (ridx s) d)) with t0.
         assert (TK : take_eq t0 (reads C a t0 o0) = reads C a t0 o0) by (rewrite reads_eq; apply take_eq_all).
         rewrite TK. reflexivity. }
@@ -601,7 +606,7 @@ Section xplain_run.
 End xplain_run.
 
 (* ---------------------------------------------------------------- whole runs *)
-Theorem xrun_forest thr gd ms sh rd pm : forall f, all_xtimed thr gd ms sh rd pm f -> heights (map strip f) <= ms ->
+Theorem xrun_forest thr gd ms sh rd pm : forall f, all_xtimed f -> heights (map strip f) <= ms ->
   xout (snd (xexec (xplain thr gd ms sh rd pm) (flat_map xflat f) xstart)) =
   flat_map (xrecs (xplain thr gd ms sh rd pm) thr gd 0) f.
 Proof.
